@@ -213,7 +213,8 @@ class DirectMethod:
                 init = stage._T.T_init
                 stage.set_T(stage.variable())
                 stage.subject_to(stage._T>=0)
-                stage.set_initial(stage._T, init,priority=True)
+                if stage.T not in stage._initial: # A guess given by the user for T takes precedence
+                    stage.set_initial(stage._T, init,priority=True)
                 return stage._T
             else:
                 return stage._T
@@ -224,7 +225,8 @@ class DirectMethod:
             if isinstance(stage._t0, FreeTime):
                 init = stage._t0.T_init
                 stage.set_t0(stage.variable())
-                stage.set_initial(stage._t0, init,priority=True)
+                if stage.t0 not in stage._initial: # A guess given by the user for t0 takes precedence
+                    stage.set_initial(stage._t0, init,priority=True)
                 return stage._t0
             else:
                 return stage._t0
